@@ -193,7 +193,7 @@ func Run(r *ev.Run, replay string) {
 	}
 	wg.Wait()
 	r.GateNontrivial(int64(n / 4))
-	for _, k := range []string{"read:version:found", "read:version:notfound", "read:versions:found", "read:versions:notfound", "read:versions:empty-known-package", "read:requirements:found", "read:requirements:notfound", "read:matching", "add:replace-changed", "add:deleted", "add:latest-moved"} {
+	for _, k := range []string{"read:version:found", "read:version:notfound", "read:versions:found", "read:versions:notfound", "read:versions:empty-known-package", "read:requirements:found", "read:requirements:notfound", "read:matching", "add:replace-changed", "add:deleted", "add:latest-moved", "read:other-key-type"} {
 		r.Gate(k, int64(n/30))
 	}
 }
@@ -271,6 +271,10 @@ func generate(rng *rand.Rand) Case {
 			rv = pools[sysName][rng.Intn(len(pools[sysName]))]
 		}
 		ops = append(ops, Op{Kind: "version", Name: rn, Version: rv}, Op{Kind: "versions", Name: rn}, Op{Kind: "requirements", Name: rn, Version: rv})
+		if rng.Intn(3) == 0 {
+			// The same strings under a key of another type were never added.
+			ops = append(ops, Op{Kind: "version-as-requirement-key", Name: rn, Version: rv}, Op{Kind: "requirements-as-requirement-key", Name: rn, Version: rv})
+		}
 		if rng.Intn(2) == 0 {
 			q := gen.Pick(rng, "*", ">=1.0.0", "latest", "1.0.0", "<2", "[1.0,2.0)", "", ">=1.0", "next", "junk")
 			ops = append(ops, Op{Kind: "matching", Name: rn, Version: q})
@@ -329,6 +333,17 @@ func history(r *ev.Run, c Case) {
 			want := mkVersion(sys, Op{Name: op.Name, Version: op.Version, Tags: e.tags, Blocked: e.blocked})
 			if err != nil || got.VersionKey != want.VersionKey || !got.AttrSet.Equal(want.AttrSet) {
 				bad(i, "version:stale", fmt.Sprintf("returned %v (%v), last added %v", got, err, want))
+				return
+			}
+		case "version-as-requirement-key":
+			r.Count("read:other-key-type", 1)
+			if got, err := lc.Version(ctx, vk(sys, op.Name, op.Version, resolve.Requirement)); err == nil {
+				bad(i, "version:found-under-other-key-type", fmt.Sprintf("Version of the Requirement-typed key returned %v; only Concrete keys were ever added", got))
+				return
+			}
+		case "requirements-as-requirement-key":
+			if got, err := lc.Requirements(ctx, vk(sys, op.Name, op.Version, resolve.Requirement)); err == nil {
+				bad(i, "requirements:found-under-other-key-type", fmt.Sprintf("Requirements of the Requirement-typed key returned [%s]; only Concrete keys were ever added", showReqs(got)))
 				return
 			}
 		case "versions":
